@@ -79,6 +79,13 @@ def gen(rng):
     ops.append({'k': 'battery', 'lexicon': 'b:1 c:1'})      # dependencies on two versions of one id
     ops.append({'k': 'battery', 'lexicon': 'c:1 b:1'})
     ops.append({'k': 'battery'})       # unrestricted: expands over all lexicons
+    if 'e:1' in order and rng.random() < 0.6:
+        # the provider is removed (the declared dependency stays, unlinked) and installed again (linked again)
+        ops.append({'k': 'remove', 'spec': 'e:1', '_removed': ['e:1']})
+        ops.append({'k': 'battery', 'lexicon': 'b:1'})
+        ops.append(multi.add_op(W, ['e:1'], ve))
+        ops.append({'k': 'battery', 'lexicon': 'b:1'})
+        ops.append({'k': 'battery', 'lexicon': 'b:1', 'expand': 'e:1'})
     return {'ops': ops}
 
 
